@@ -323,12 +323,7 @@ def main(tier="quick"):
                     b = [e[1] for e in h if e[0] == "new"][ev[1]]
                     outcomes_per_query.setdefault((b, ev[2]), set()).add(okey)
                     # which pristine outcome applies: ext attached to this executor and not yet consumed?
-                    cands = {base[(b, ev[2], False)][:2] if base[(b, ev[2], False)][0] == "pkg" else base[(b, ev[2], False)]}
-                    if ev[2] == "docker" and ("ext", ev[1]) in h:
-                        # ext was attached to this executor at some point: whether it is still attached after an
-                        # intervening translation is not defined by the property -> accept either pristine outcome
-                        exp = base[(b, ev[2], True)]
-                        cands.add(exp[:2] if exp[0] == "pkg" else exp)
+                    cands = candidates(base, b, ev, h)
                     if okey not in cands:
                         bad.append((tuple(h), ev, okey, sorted(cands)[0]))
                 newh = h + (ev,)
@@ -358,12 +353,7 @@ def main(tier="quick"):
     for h, ev, got, want in sorted(bad, key=lambda x: (len(x[0]), str(x))):
         def acceptable(hist, ev=ev, h=h):
             bk = [e[1] for e in hist if e[0] == "new"][ev[1]]
-            o = base[(bk, ev[2], False)]
-            ok = {o[:2] if o[0] == "pkg" else o}
-            if ev[2] == "docker" and ("ext", ev[1]) in hist:
-                o2 = base[(bk, ev[2], True)]
-                ok.add(o2[:2] if o2[0] == "pkg" else o2)
-            return ok
+            return candidates(base, bk, ev, hist)
         mh = minimise(h, ev, want, max_exec, acceptable)
         b = [e[1] for e in mh if e[0] == "new"][ev_index(mh, h, ev)]
         culprits = sorted({e[2] if e[0] == "tr" else (f"apply:{e[2]}" if e[0] == "apply" else e[0]) for e in mh if e[0] != "new"} | ({"same-object-again"} if ev[0] == "again" else set()))
@@ -429,6 +419,40 @@ def probe_once(history, ev, max_exec, files=False):
             return out
         return out[:2] if out[0] == "pkg" else out
     return _in_child(body)
+
+
+def ext_state(h, i, b):
+    """Is the extended-metadata handler attached to executor i still in force at the end of history h?
+    'none' - never attached; 'attached' - attached and no translation on that executor has COMPLETED since (a translation
+    that was only started - apply - of a query that translates leaves configuration alone); 'unknown' - a completed
+    (written or failed) translation intervened: the handlers are configuration the library drops at the end of a
+    translation, and the property does not say whether they outlive one."""
+    last = None
+    for k, e in enumerate(h):
+        if e[0] == "ext" and e[1] == i:
+            last = k
+    if last is None:
+        return "none"
+    for e in h[last + 1:]:
+        if e[0] in ("tr", "again") and e[1] == i:
+            return "unknown"
+        if e[0] == "apply" and e[1] == i and MENUS[b][e[2]][1] is False:
+            return "unknown"       # a query that cannot be translated may already fail (and reset) while it is applied
+    return "attached"
+
+
+def candidates(base, b, ev, h):
+    "The pristine outcomes acceptable for translating menu query ev[2] on executor ev[1] (backend b) after history h."
+    def key(o):
+        return o[:2] if o[0] == "pkg" else o
+    if ev[2] != "docker":
+        return {key(base[(b, ev[2], False)])}
+    st = ext_state(h, ev[1], b)
+    if st == "none":
+        return {key(base[(b, ev[2], False)])}
+    if st == "attached":
+        return {key(base[(b, ev[2], True)])}
+    return {key(base[(b, ev[2], False)]), key(base[(b, ev[2], True)])}
 
 
 def minimise(h, ev, want, max_exec, acceptable=None):
